@@ -22,6 +22,25 @@ CLAIMED = {
         "closed under the global context); tools/py2v.py translator; harness. Modelled not verified: "
         "jnp.split/concatenate/reshape/transpose (observed on arange tensors only).",
         "DESIGN.md 7/C06"),
+    "C09": (
+        "Coq proof (FD step/history bracket by induction, Bessel, verified LDL^T PSD checker) + "
+        "step-by-step correspondence with captured SVD calls, verdicts computed in Coq on exact rationals",
+        "Theorems in Properties/C09.v: for EVERY SVD answer meeting its spec (sorted non-negative "
+        "spectrum, Bessel inequality - itself proved from orthonormality, reconstruction of "
+        "b(B+R)+GG^T) one frequent-directions step preserves 0<=t and B <= C <= B+tI, hence every "
+        "history of any length, rank k, decay b>=0, per-step ridge; tail recurrence t'=bt+rho; "
+        "zero-gradient step scales sketch and tail by b; vanishing cut-offs => exact tracking; the "
+        "inverted quantity is l'+t'+eps. Run-time tie: Distributed Shampoo _fd_update_root, "
+        "Tearfree Sketchy _update_axis and OCO _fd_update_fn are run over generated histories with "
+        "every SVD captured; chk_history (vm_compute on exact dyadics) checks per step the factor "
+        "handed to the SVD, the oracle answer, the recurrence and - with the verified PSD checker "
+        "(psd_check_rounded_sound) - the bracket of the implementation's own state against the exact covariance.",
+        "Trusted: Coq kernel + vm_compute; no axioms. Oracles (SVD/QR) enter as hypotheses (svd_spec) "
+        "and are monitored per call to 2^-17 (f32) / 2^-40 (f64) relative; float rounding of the "
+        "implementations is absorbed by these tolerances (not verified). 'rank<=k => zero cut-off' is "
+        "monitored, not proved. The DS optimizer path (FD under vmap) is covered via direct calls of "
+        "_fd_update_root, not through update().",
+        "DESIGN.md 7/C09"),
 }
 
 NOT_YET = {}
